@@ -282,11 +282,13 @@ func instrJSON(in ssa.Instruction) J {
 		d["x"] = operand(x.X)
 		d["index"] = operand(x.Index)
 		d["xt"] = typeID(x.X.Type())
+		d["it"] = typeID(x.Index.Type())
 	case *ssa.IndexAddr:
 		d["op"] = "IndexAddr"
 		d["x"] = operand(x.X)
 		d["index"] = operand(x.Index)
 		d["xt"] = typeID(x.X.Type())
+		d["it"] = typeID(x.Index.Type())
 	case *ssa.If:
 		d["op"] = "If"
 		d["cond"] = operand(x.Cond)
